@@ -685,15 +685,18 @@ def fault_position(events, f):
     """Class of the crash point inside the operation, from the events recorded before the fault."""
     if f["kind"] == "natural":
         return "natural"
+    fired = [e for e in events if e[0] == "F"]
+    actual = fired[0][1] if fired else f["kind"]
     kinds = [e[0] for e in events if e[0] != "F"]
-    if f["kind"] == "storage" or (kinds and False):
+    if actual == "storage":
         return "storage"
     n_loss = sum(1 for k in kinds if k == "L")
     n_ii = sum(1 for k in kinds if k == "II")
+    n_m = sum(1 for k in kinds if k in ("M", "MB"))
     if not kinds:
         return "first-call-out"
     if n_loss == 0:
         return "before-first-loss"
-    if n_ii == 0:
+    if n_ii == 0 and n_m <= 1:
         return "before-chain"
-    return "mid-chain"
+    return "in-chain:" + actual
